@@ -320,12 +320,27 @@ func wdKey(rng *rand.Rand, text bool, n int) []byte {
 	nasty := []byte{0x00, 0x80, '\r', '\n', ' ', 0xff, 0x81, '\t'}
 	for i := range k {
 		if text {
-			k[i] = byte(0x21 + rng.Intn(0x7e-0x21+1))
+			// a text key is any run of bytes without ASCII control characters and space: high bytes included
+			if rng.Intn(4) == 0 {
+				k[i] = byte(0x80 + rng.Intn(0x80))
+			} else {
+				k[i] = byte(0x21 + rng.Intn(0x7e-0x21+1))
+			}
 		} else if rng.Intn(3) == 0 {
 			k[i] = nasty[rng.Intn(len(nasty))]
 		} else {
 			k[i] = byte(rng.Intn(256))
 		}
+	}
+	if text && n >= 4 && rng.Intn(3) == 0 {
+		// the UTF-8 encodings of Unicode white space are ordinary key bytes in the memcached text protocol:
+		// NBSP, NEL, em space, ideographic space, line separator - inside the key and at its very end
+		sp := [][]byte{{0xc2, 0xa0}, {0xc2, 0x85}, {0xe2, 0x80, 0x83}, {0xe3, 0x80, 0x80}, {0xe2, 0x80, 0xa8}}[rng.Intn(5)]
+		at := 1 + rng.Intn(n-len(sp))
+		if rng.Intn(2) == 0 {
+			at = n - len(sp)
+		}
+		copy(k[at:], sp)
 	}
 	return k
 }
